@@ -8,6 +8,7 @@ static void
 run_digit(void) {
 	const vset_t *ds;
 	size_t i, j, k; R x, y, z, N, q, r, want, t; int pop, b;
+	volatile int rc, rcs; bn_digit_t qs, g1, g2;
 #if C01_SCOPE == 0
 	ds = &VS_EX1;
 #else
@@ -49,7 +50,7 @@ run_digit(void) {
 		if (vh_begin("bn_digit_gcd")) {
 			d_op = "bn_digit_gcd / bn_digit_gcd_bin";
 			for (j = 0; j < ds->n; j ++) {
-				bn_digit_t g1 = 0, g2 = 0;
+				g1 = 0; g2 = 0;
 				vs_get(ds, j, &y); dy = r_to_digit(&y);
 				CALL_COUNT();
 				g_crashed = 0;
@@ -66,10 +67,12 @@ run_digit(void) {
 		/* three-argument: (hi:lo) / divisor with x = divisor */
 		if (vh_begin("bn_digit_div")) {
 			d_op = "bn_digit_div (first argument is the divisor)";
-			for (j = 0; j < ds->n; j ++) for (k = 0; k < ds->n; k ++) {
-				volatile int rc = -1; bn_digit_t qs = 0; volatile int rcs = -1;
+			/* dividend high: every value in the thorough tier, the extended digit alphabet in quick */
+			const vset_t *dh = (vh_thorough || ds != &VS_EX1) ? ds : &VS_DX;
+			for (j = 0; j < ds->n; j ++) for (k = 0; k < dh->n; k ++) {
+				rc = -1; rcs = -1; qs = 0;
 				vs_get(ds, j, &y); dy = r_to_digit(&y);	/* dividend low */
-				vs_get(ds, k, &z); dz = r_to_digit(&z);	/* dividend high */
+				vs_get(dh, k, &z); dz = r_to_digit(&z);	/* dividend high */
 				CALL_COUNT();
 				lo = hi = rlo = rhi = 0x5a;
 				g_crashed = 0;
